@@ -141,7 +141,8 @@ def links(container, sheet, parent_rule):
 def obs_sheet(s):
     return ('sheet', q(lambda: s.cssText), q(lambda: tuple(r.type for r in s.cssRules)),
             q(lambda: tuple(obs_rule(r) for r in s.cssRules)), obs_ns(s.namespaces), q(lambda: s.encoding),
-            q(lambda: links(s, s, None)))
+            q(lambda: links(s, s, None)),
+            q(lambda: tuple(sorted((k_, s.variables.getVariableValue(k_)) for k_ in s.variables.keys()))))
 
 
 def obs_any(o):
@@ -620,7 +621,8 @@ N_VARIABLES = ['@variables { nv: 2px }', '@variables { nv: 2px; nz: green }']
 N_SHEET = ['na { left: 2px }', '@charset "ascii"; @import "n.css"; @namespace np "http://n/p"; np|na { left: 2px } nb { top: 2px }',
            '/*n*/ na { left: 2px } @media screen { nb { top: 2px } nc { color: green } } @page { margin: 3cm } nd { width: 1% }',
            '@namespace wp "http://n/other"; wp|na, nb { left: 2px } @font-face { font-family: N } @nunk n; nc { top: 2px }',
-           '@variables { nv: 2px } na { left: var(nv) } nb { top: 2px }']
+           '@variables { nv: 2px } na { left: var(nv) } nb { top: 2px }',
+           '@variables { wv: 9px; nq: green } na { left: var(wv); color: var(nq) } nb { top: 2px } nc { width: 1% }']
 N_SEL = ['na', 'na > nb', 'na.nk:hover nb[nt="1"]', 'wp|na', '*|na nb']
 N_SELLIST = ['na', 'na, nb > nc', 'na , wp|nb , .nk']
 N_ML = ['screen', 'screen, projection', 'projection and (min-width: 2px), screen', 'all', '/*n*/ screen']
